@@ -31,10 +31,10 @@ def rounds(ctx):
       dict(name='suggest_3workers_d4', consts=speca.constants(
           MaxDepth=4, MaxId=4, MaxCount=2, MaxDeliver=3, Params={'p1', 'p2'}, Clients={'w1', 'w2', 'w3'}, Meas={'m1'},
           Kinds=SK | {'GetOperation', 'SetStudyState'}),
-           expect=EXPECT, backends={'ram': 1.0, 'sqlmem': 1.0, 'sqlfile': 0.03}, relevant={'SuggestTrials'}),
+           expect=EXPECT, backends={'ram': 1.0, 'sqlmem': 0.3, 'sqlfile': 0.03}, relevant={'SuggestTrials'}),
       dict(name='suggest_two_studies_d4', consts=speca.constants(
           MaxDepth=4, MaxId=3, MaxCount=2, MaxDeliver=2, Params={'p1'}, Studies={'s1', 's2'}, Meas={'m1'}, Kinds=SK | {'DeleteStudy'}),
-           expect=EXPECT, backends={'ram': 1.0, 'sqlmem': 1.0}, relevant={'SuggestTrials'}),
+           expect=EXPECT, backends={'ram': 1.0, 'sqlmem': 0.3}, relevant={'SuggestTrials'}),
   ]
 
 
